@@ -261,6 +261,12 @@ def run_shard(spec, rec):
     orders = Orders(cap=20000)
     # the listed finding's own witness, so that it is observed (and still attributed) on every run
     one(rec, R, nd, det, abn, orders, "$..[*]", [[[1], [2]], [3]], spec["max_leaves"], exhaustive=True)
+    # battery: member shuffles must survive in every segment position (after a filter, after a descendant segment, inside one)
+    for text, doc in (("$[?@][*]", [{"a": 1, "b": 2}, {"c": 3, "d": 4}]), ("$[?@.a][?@]", [{"a": 1, "b": 2}, {"a": 3, "d": 4}]), ("$..[?@][*]", {"x": {"a": 1, "b": 2}}),
+                      ("$.*[*]", {"x": {"a": 1, "b": 2}, "y": [3]}), ("$[*][?@]", [{"a": 1, "b": 2}, [3, 4]]), ("$..*", {"a": {"b": 1, "c": 2}}),
+                      ("$[?@ == @][*, *]", [{"a": 1, "b": 2}]), ("$[?count(@.*) > 1].*", {"k": {"a": 1, "b": 2}, "l": [1]})):
+        one(rec, R, nd, det, abn, orders, text, doc, spec["max_leaves"], exhaustive=True)
+        rec.feat("small:battery")
     for i in range(spec["small"]):
         if i % 2 == 0:
             text = R.choice(["$..[*]", "$..*", "$..[0]", "$..[?@]", "$[*]..[*]", "$..[*]..[0]", "$..[?@ == $[0][0]]", "$..[?$[1]]"])
